@@ -47,6 +47,24 @@ def assigned_names(nodes) -> set:
     return names
 
 
+class MaybeUnbound:
+    """A local assigned in a loop body but unbound when the loop was entered: at an arbitrary iteration it
+    either still is unbound or holds a value from an earlier iteration.  Decided lazily at the first read."""
+
+    def __init__(self, name):
+        self.name = name
+
+
+def function_locals(fnode) -> set:
+    cache = getattr(fnode, "_pyvc_locals", None)
+    if cache is None:
+        cache = assigned_names(fnode.body) if hasattr(fnode, "body") and isinstance(fnode.body, list) else set()
+        for a in fnode.args.posonlyargs + fnode.args.args + fnode.args.kwonlyargs:
+            cache.add(a.arg)
+        fnode._pyvc_locals = cache
+    return cache
+
+
 class Exec(Interp):
     # ======================================================================== frames / names
     def push_frame(self, func: Optional[FuncInfo], module: ModuleInfo, parent: Optional[Frame] = None,
@@ -87,9 +105,23 @@ class Exec(Interp):
         f = self.frame
         while f is not None:
             if name in f.vars:
-                return f.vars[name]
+                v = f.vars[name]
+                if isinstance(v, MaybeUnbound):
+                    if self.choose_n(2, f"{name}_bound_by_an_earlier_iteration") == 0:
+                        v = self.fresh(f"prev_{name}")
+                        f.vars[name] = v
+                        return v
+                    del f.vars[name]
+                    self.throw("UnboundLocalError", f"cannot access local variable '{name}'")
+                return v
             f = f.parent
+        # a name that is a local of the enclosing function but not bound yet
+        fr = self.frame
+        fnode = getattr(fr, "fnode", None)
+        if fnode is not None and name in function_locals(fnode):
+            self.throw("UnboundLocalError", f"cannot access local variable '{name}' where it is not associated with a value")
         return self.lookup_global(self.frame.module, name, node)
+
 
     def lookup_global(self, mi: ModuleInfo, name, node=None):
         r = self.ctx.repo.resolve_import(mi, name) if mi is not None else None
@@ -98,6 +130,8 @@ class Exec(Interp):
         from . import prelude
         if name in prelude.BUILTINS:
             return self.ctx.fn_val(FnDesc("builtin", prelude.BUILTINS[name], name=name), key=("builtin", name))
+        if f"builtins.{name}" in self.ctx.extern_handlers:
+            return self.static_to_val(("extern", f"builtins.{name}"))
         if name in self.ctx.class_by_name and self.ctx.class_by_name[name].kind in ("exc", "builtin"):
             return V.VCls(self.ctx.class_by_name[name].cid)
         if name in ("True", "False", "None"):
@@ -619,7 +653,10 @@ class Exec(Interp):
                 if f is None or nm in keep:
                     continue
                 if nm in f.vars:
-                    f.vars[nm] = self.fresh(f"hv_{nm}")
+                    if not isinstance(f.vars[nm], MaybeUnbound):
+                        f.vars[nm] = self.fresh(f"hv_{nm}")
+                elif getattr(f, "fnode", None) is not None and nm in function_locals(f.fnode):
+                    f.vars[nm] = MaybeUnbound(nm)
             elif cell[0] == "heap":
                 _, nm, oid = cell
                 h, a = self.st.field(nm)
@@ -737,6 +774,19 @@ class Exec(Interp):
         return V.VTuple(self._elts(e.elts))
 
     def expr_List(self, e):
+        if any(isinstance(x, ast.Starred) for x in e.elts):
+            from . import prelude
+            parts = []
+            for x in e.elts:
+                if isinstance(x, ast.Starred):
+                    sv = self.eval(x.value)
+                    seq, k = prelude.seq_and_kind(self, sv, x)
+                    if seq is None:
+                        self.throw("TypeError", "value after * must be an iterable")
+                    parts.append(seq)
+                else:
+                    parts.append(z3.Unit(self.eval(x)))
+            return V.VList(z3.simplify(z3.Concat(*parts)) if len(parts) > 1 else parts[0])
         return V.VList(self._elts(e.elts))
 
     def _elts(self, elts):
@@ -1103,6 +1153,7 @@ class Exec(Interp):
         self.call_chain.append(site)
         saved = (self.cur_func, self.cur_line)
         frame = self.push_frame(fi, fi.module, None, tag=site)
+        frame.fnode = fi.node
         try:
             self.bind_params(fi.node, args, kwargs, node, frame)
             self.cur_func = fi.qualname
@@ -1125,6 +1176,8 @@ class Exec(Interp):
         saved = (self.cur_func, self.cur_line)
         frame = self.push_frame(d.frame.func if d.frame else None, d.frame.module if d.frame else None,
                                 d.frame, tag=site)
+        if not isinstance(fnode, ast.Lambda):
+            frame.fnode = fnode
         try:
             self.bind_params(fnode, args, kwargs, node, frame)
             if isinstance(fnode, ast.Lambda):
